@@ -158,9 +158,14 @@ func createXmlNamespaces(attrs []xml.Attr) []XmlNamespace {
 			}
 
 			ret = append(ret, ns)
-		}
+		} else if i.Name.Space == xmlns {
+			ns = XmlNamespace{
+				prefix: i.Name.Local,
+				value:  i.Value,
+			}
 
-		if i.Name.Local == xmlns {
+			ret = append(ret, ns)
+		} else if i.Name.Local == xmlns {
 			ns = XmlNamespace{
 				prefix: i.Name.Space,
 				value:  i.Value,
